@@ -939,7 +939,7 @@ func run(cx *lib.Ctx) {
 		return
 	}
 	res.Rule = "random abstract configurations (attributes with literal / variable / iterator-derived values, blocks with 0..3 labels, nesting, dynamic groups over tuple/object literals and list/map/set/unknown variables incl. nested groups, custom iterators, zero elements) realised as six bodies: native, JSON (repeated keys, arrays of blocks, label grouping, bodies as arrays of objects, \"//\" comments), merged (2-4 files, mixed syntax, contiguous or scattered split), and dynblock.Expand over each of the three symbolic forms; for each body and for nested bodies (incl. remainders and generated blocks) 4 random schemas (exact, subset, superset, label-count changes, attribute/block crossings, required attributes, empty) are applied and Content, PartialContent+remain, k-step (k=2..4) vs one-step, and JustAttributes are compared with the syntax-independent specification computed from the abstract configuration; non-trivial = body and schema non-empty; distinct by implementation, schema and case"
-	n := cx.Scale(1500, 25000)
+	n := cx.Scale(1200, 20000)
 	for i := 0; i < n; i++ {
 		runCase(cx, cx.R.U64(), i < 1)
 	}
